@@ -64,7 +64,9 @@ def rules(model: Model, tier: str) -> List[RuleResult]:
             RB.bad(_sfc.backward, _r, "solve_torchfcn.backward has an exit without the gradient A^-H grad_x for B (e.g. an all-None shortcut for the zero right-hand side): in the "
                    "root finder's backward B is the cotangent -dL/dy, so at a stationary point the whole second derivative flows through this slot")
     _hy = ac.hygiene_rules(model, ac.get_fncls(model, '_RootFinder'), PROP, min_copies=1, min_opt=2, min_conv=0, min_idx=4)
-    return [R1, R2, R3, R4, R5, R6, J, U, *_hy, RJ, RB]
+    from ..rules import substitution as _subst
+    _sub = _subst.rules(model, PROP, tier)
+    return [R1, R2, R3, R4, R5, R6, J, U, *_hy, RJ, RB, *_sub]
 
 
 def _saved_output_names(fc) -> set:
